@@ -80,6 +80,7 @@ class FakeSocket (object):
     self.shut_wr = False
     self.dead = False         # a fatal send error happened
     self.sends_after_fatal = 0
+    self.sticky_fatal = True  # once dead, every later send fails too
     self.bytes_after_fatal = 0
     self._fd = _next_fd[0]; _next_fd[0] += 1
     self.blocking = False
@@ -130,8 +131,16 @@ class FakeSocket (object):
       raise SockErr(errno.EBADF, "Bad file descriptor")
     if self.shut_wr:
       raise SockErr(errno.EPIPE, "Broken pipe")
+    if self.send_script and self.send_script[0] == "eagain_blocked":
+      # send buffer full until unblock(): not writable, and a write anyway
+      # gets EAGAIN
+      self.send_log.append(("eagain_blocked", len(data), 0))
+      raise BlockingIOError(errno.EAGAIN, "Resource temporarily unavailable")
     out = self.send_script.pop(0) if self.send_script else "all"
-    if self.dead: out = "fatal"
+    if self.dead and self.sticky_fatal: out = "fatal"
+    if self.dead and out != "fatal" and out != "eagain":
+      k = len(data) if out == "all" else min(len(data), int(out))
+      self.bytes_after_fatal += k
     if out == "eagain":
       self.send_log.append(("eagain", len(data), 0))
       raise BlockingIOError(errno.EAGAIN, "Resource temporarily unavailable")
@@ -148,6 +157,13 @@ class FakeSocket (object):
     if self.on_send is not None:
       self.on_send(self, acc)
     return k
+
+  def unblock (self):
+    """The peer drained its side: an "eagain_blocked" head entry goes away."""
+    if self.send_script and self.send_script[0] == "eagain_blocked":
+      self.send_script.pop(0)
+      return True
+    return False
 
   def sendall (self, data):
     self.send(data)
